@@ -417,3 +417,278 @@ Lemma frame_spine_u : forall n h a b m, flat_array h a -> flat_array h b -> a <>
   (forall c, In c (spine h b) -> c <> a) ->
   unchanged (obs n h (VArr b)) (obs n (apply_mut h a m) (VArr b)).
 Proof. intros; symmetry; apply frame_spine_l; auto. Qed.
+
+(* ================================================================== audit follow-up
+   (1) the depth-1 copy theorem for ANY write that has the frame property, so that the writes added
+       later (by-reference parameter bound to an element, $r = &elem, usort, array_walk) are covered by
+       the same statement;
+   (2) the writes TAKE EFFECT: what the written name denotes afterwards is stated, not only that the
+       other name is unchanged (an identity function satisfies every frame theorem). *)
+
+Definition frame_write (W : heap -> nat -> heap) : Prop :=
+  forall h X, noref h X -> bounded h X -> unchanged_except X h (W h X).
+
+Lemma apply_mut_frame_write : forall m, frame_write (fun h X => apply_mut h X m).
+Proof. intros m h X NR BD. apply apply_mut_spec; auto. Qed.
+
+Lemma copy_then_write_gen : forall W, frame_write W -> forall n h a, flat_array h a ->
+  let h1 := fst (clone_array h a) in
+  let b := snd (clone_array h a) in
+  obs n h1 (VArr b) = obs n h1 (VArr a) /\
+  obs n (W h1 b) (VArr a) = obs n h1 (VArr a) /\
+  obs n (W h1 a) (VArr b) = obs n h1 (VArr b).
+Proof.
+  intros W FW n h a FA. destruct FA as [La [BD [NR F]]].
+  unfold clone_array, alloc_arr. simpl.
+  set (h1 := {| cells := cells h; arrs := (next h, spine h a) :: arrs h; maps := maps h; next := S (next h) |}).
+  set (b := next h).
+  assert (Sb : spine h1 b = spine h a).
+  { unfold spine, h1; simpl. unfold b. rewrite Nat.eqb_refl. reflexivity. }
+  assert (Sa : spine h1 a = spine h a).
+  { unfold spine at 1, h1; simpl. destruct (Nat.eqb_spec (next h) a); [lia|reflexivity]. }
+  assert (C : forall c, cell_at h1 c = cell_at h c) by reflexivity.
+  assert (FA1 : flat_array h1 a).
+  { split; [simpl; lia|]. split; [intros c Hc; rewrite Sa in Hc; simpl; specialize (BD c Hc); lia|].
+    split; [intros c Hc; rewrite Sa in Hc; rewrite C; apply NR; auto|].
+    intros c Hc. rewrite Sa in Hc. rewrite C. apply F; auto. }
+  assert (FB1 : flat_array h1 b).
+  { split; [simpl; unfold b; lia|]. split; [intros c Hc; rewrite Sb in Hc; simpl; specialize (BD c Hc); lia|].
+    split; [intros c Hc; rewrite Sb in Hc; rewrite C; apply NR; auto|].
+    intros c Hc. rewrite Sb in Hc. rewrite C. split; [apply F; auto|]. specialize (BD c Hc). unfold b. lia. }
+  split; [|split].
+  - destruct n; simpl; [reflexivity|]. rewrite Sa, Sb. reflexivity.
+  - destruct FB1 as [_ [BDb [NRb _]]].
+    apply obs_agree. intros x Hx. destruct (FW h1 b NRb BDb) as [_ U].
+    apply (reach_flat n h1 a x FA1) in Hx. destruct Hx as [->|Hx].
+    + apply U; simpl; unfold b; lia.
+    + rewrite Sa in Hx. specialize (BD x Hx). apply U; simpl; unfold b; lia.
+  - destruct FA1 as [_ [BDa [NRa _]]].
+    apply obs_agree. intros x Hx. destruct (FW h1 a NRa BDa) as [_ U].
+    apply (reach_flat n h1 b x FB1) in Hx. destruct Hx as [->|Hx].
+    + apply U; simpl; unfold b; lia.
+    + rewrite Sb in Hx. apply U; [specialize (BD x Hx); simpl; lia | apply F; auto].
+Qed.
+
+(* ---- OwnSlot *)
+Lemma set_nth_length : forall (A : Type) j (x : A) l, List.length (set_nth j x l) = List.length l.
+Proof. induction j; destruct l; simpl; auto. Qed.
+
+Lemma own_slot_spec : forall h X j c0, noref h X -> bounded h X -> nth_error (spine h X) j = Some c0 ->
+  let h' := fst (own_slot h X j) in
+  snd (own_slot h X j) = Some (next h) /\
+  unchanged_except X h h' /\ noref h' X /\ bounded h' X /\
+  spine h' X = set_nth j (next h) (spine h X) /\
+  cell_at h' (next h) = {| cname := cname (cell_at h c0); cval := cval (cell_at h c0); cref := false |} /\
+  next h' = S (next h) /\
+  (forall c, c < next h -> cell_at h' c = cell_at h c).
+Proof.
+  intros h X j c0 NR BD E. unfold own_slot. rewrite E.
+  assert (Ic : In c0 (spine h X)) by (eapply nth_error_In; eauto).
+  rewrite (NR c0 Ic). simpl.
+  set (cl := {| cname := cname (cell_at h c0); cval := cval (cell_at h c0); cref := false |}).
+  set (h1 := {| cells := (next h, cl) :: cells h; arrs := arrs h; maps := maps h; next := S (next h) |}).
+  split; [reflexivity|]. split; [|split; [|split; [|split; [|split; [|split]]]]].
+  - eapply ue_trans; [apply (ue_alloc_cell X h cl) | apply ue_set_spine].
+  - intros d Hd. rewrite spine_set_spine in Hd. rewrite cell_set_spine.
+    apply set_nth_in in Hd. destruct Hd as [->|Hd].
+    + unfold cell_at, h1; simpl. rewrite Nat.eqb_refl. reflexivity.
+    + unfold cell_at, h1; simpl. destruct (Nat.eqb_spec (next h) d).
+      * subst. specialize (BD _ Hd). lia.
+      * apply NR; auto.
+  - intros d Hd. rewrite spine_set_spine in Hd. rewrite next_set_spine. simpl.
+    apply set_nth_in in Hd. destruct Hd as [->|Hd]; [lia|]. specialize (BD _ Hd). lia.
+  - rewrite spine_set_spine. reflexivity.
+  - rewrite cell_set_spine. unfold cell_at, h1; simpl. rewrite Nat.eqb_refl. reflexivity.
+  - reflexivity.
+  - intros c Hc. rewrite cell_set_spine. unfold cell_at, h1; simpl.
+    destruct (Nat.eqb_spec (next h) c); [lia|reflexivity].
+Qed.
+
+Lemma ue_set_cell_above : forall X h0 h c x, unchanged_except X h0 h -> next h0 <= c ->
+  unchanged_except X h0 (set_cell h c x).
+Proof.
+  intros X h0 h c x [L U] Hc. split; [exact L|].
+  intros y Hy Hn. destruct (U y Hy Hn) as [A [B C]]. repeat split; auto.
+  unfold cell_at, set_cell; simpl. destruct (Nat.eqb_spec c y); [lia|]. exact A.
+Qed.
+
+Lemma find_named_pos : forall h n l j0 j, find_named h l n j0 = Some j ->
+  exists c, nth_error l (j - j0) = Some c /\ j0 <= j.
+Proof.
+  intros h n. induction l as [|c l IH]; intros j0 j H; simpl in H; [discriminate|].
+  destruct (name_eqb (cname (cell_at h c)) n).
+  - inversion H; subst. rewrite Nat.sub_diag. exists c. split; [reflexivity|lia].
+  - destruct (IH _ _ H) as [d [E L]]. exists d. split; [|lia].
+    replace (j - j0) with (S (j - S j0)) by lia. exact E.
+Qed.
+
+Lemma zval_pos_nth : forall h X k j, zval_pos h X k = Some j -> exists c, nth_error (spine h X) j = Some c.
+Proof.
+  intros h X k j H. destruct k as [i|s]; simpl in H.
+  - destruct (i <? 0)%Z; [discriminate|].
+    destruct (Nat.ltb (Z.to_nat i) (List.length (spine h X))) eqn:L; [|discriminate].
+    inversion H; subst. apply Nat.ltb_lt in L.
+    destruct (nth_error (spine h X) (Z.to_nat i)) eqn:E; [eauto|]. apply nth_error_None in E. lia.
+  - destruct (find_named_pos _ _ _ _ _ H) as [c [E _]]. rewrite Nat.sub_0_r in E. eauto.
+Qed.
+
+(* a by-reference parameter bound to an element of X / $r = &X[k], then a store through it *)
+Lemma ref_store_frame_write : forall k z bind, frame_write (fun h X => ref_store h (VArr X) [k] z bind).
+Proof.
+  intros k z bind h X NR BD. unfold ref_store. simpl.
+  destruct (zval_pos h X k) as [j|] eqn:Z; [|apply ue_refl].
+  destruct (zval_pos_nth _ _ _ _ Z) as [c0 E].
+  destruct (own_slot_spec h X j c0 NR BD E) as [O [U [_ [_ [_ [_ [N _]]]]]]].
+  destruct (own_slot h X j) as [h1 oc]. simpl in *. subst oc.
+  apply ue_set_cell_above; [exact U | lia].
+Qed.
+
+(* it takes effect: position j of X now holds a cell of X's own with the stored value and the old key;
+   every other position keeps its cell *)
+Lemma ref_store_takes_effect : forall h X k z bind j c0, noref h X -> bounded h X ->
+  zval_pos h X k = Some j -> nth_error (spine h X) j = Some c0 ->
+  let h' := ref_store h (VArr X) [k] z bind in
+  spine h' X = set_nth j (next h) (spine h X) /\
+  cell_at h' (next h) = {| cname := cname (cell_at h c0); cval := VInt z; cref := bind |} /\
+  (forall c, c < next h -> cell_at h' c = cell_at h c).
+Proof.
+  intros h X k z bind j c0 NR BD Z E. unfold ref_store. simpl. rewrite Z.
+  destruct (own_slot_spec h X j c0 NR BD E) as [O [_ [_ [_ [S [C [_ K]]]]]]].
+  destruct (own_slot h X j) as [h1 oc]. simpl in *. subst oc.
+  split; [|split].
+  - unfold spine, set_cell; simpl. exact S.
+  - unfold cell_at at 1, set_cell; simpl. rewrite Nat.eqb_refl. rewrite C. simpl.
+    rewrite Bool.orb_false_r. reflexivity.
+  - intros c Hc. unfold cell_at at 1, set_cell; simpl.
+    destruct (Nat.eqb_spec (next h) c); [lia|]. apply K; auto.
+Qed.
+
+(* element store / append take effect (representation level) *)
+Lemma store_slot_takes_effect : forall h X j n v c0, nth_error (spine h X) j = Some c0 ->
+  cref (cell_at h c0) = false ->
+  let h' := store_slot h X j n v in
+  spine h' X = set_nth j (next h) (spine h X) /\ cell_at h' (next h) = plain n v /\
+  (forall c, c < next h -> cell_at h' c = cell_at h c).
+Proof.
+  intros h X j n v c0 E R. unfold store_slot. rewrite E, R. simpl. split; [|split].
+  - rewrite spine_set_spine. reflexivity.
+  - rewrite cell_set_spine. unfold cell_at; simpl. rewrite Nat.eqb_refl. reflexivity.
+  - intros c Hc. rewrite cell_set_spine. unfold cell_at; simpl.
+    destruct (Nat.eqb_spec (next h) c); [lia|reflexivity].
+Qed.
+
+Lemma append_takes_effect : forall h X n v,
+  let h' := arr_append_cell h X n v in
+  spine h' X = spine h X ++ [next h] /\ cell_at h' (next h) = plain n v /\
+  (forall c, c < next h -> cell_at h' c = cell_at h c).
+Proof.
+  intros h X n v. unfold arr_append_cell. simpl. split; [|split].
+  - rewrite spine_set_spine. reflexivity.
+  - rewrite cell_set_spine. unfold cell_at; simpl. rewrite Nat.eqb_refl. reflexivity.
+  - intros c Hc. rewrite cell_set_spine. unfold cell_at; simpl.
+    destruct (Nat.eqb_spec (next h) c); [lia|reflexivity].
+Qed.
+
+(* the same at the level of trees, for a flat array: the snapshot of the written name is the old
+   snapshot with entry j replaced (same key) *)
+Lemma obs_items_set_nth : forall (r : val -> tree) h h' l j0 j c' c0,
+  (forall c, In c l -> cell_at h' c = cell_at h c) ->
+  nth_error l j = Some c0 ->
+  obs_items r h' (set_nth j c' l) j0 =
+  set_nth j (key_of (j0 + j) (cname (cell_at h' c')), r (cval (cell_at h' c'))) (obs_items r h l j0).
+Proof.
+  intros r h h'. induction l as [|d l IH]; intros j0 j c' c0 Same E; [destruct j; discriminate|].
+  destruct j as [|j]; simpl.
+  - rewrite Nat.add_0_r. f_equal.
+    apply obs_items_agree. intros c Hc. split; [apply Same; right; exact Hc | reflexivity].
+  - rewrite (Same d) by (left; reflexivity). f_equal.
+    replace (j0 + S j) with (S j0 + j) by lia.
+    apply (IH (S j0) j c' c0); [intros c Hc; apply Same; right; exact Hc | exact E].
+Qed.
+
+Lemma obs_scalar_any_heap : forall n n' h h' v, scalar v = true -> obs n h v = obs n' h' v.
+Proof. intros n n' h h' v H. destruct v; simpl in H; try discriminate; destruct n, n'; reflexivity. Qed.
+
+Lemma obs_items_scalar_rec : forall n h h' l j0,
+  (forall c, In c l -> scalar (cval (cell_at h c)) = true) ->
+  obs_items (obs n h') h l j0 = obs_items (obs n h) h l j0.
+Proof.
+  intros n h h'. induction l as [|c l IH]; intros j0 Sc; simpl; [reflexivity|].
+  rewrite (obs_scalar_any_heap n n h' h _ (Sc c (or_introl eq_refl))).
+  f_equal. apply IH. intros d Hd. apply Sc. right. exact Hd.
+Qed.
+
+Lemma ref_store_snapshot : forall n h X k z bind j c0, flat_array h X ->
+  zval_pos h X k = Some j -> nth_error (spine h X) j = Some c0 ->
+  obs (S n) (ref_store h (VArr X) [k] z bind) (VArr X) =
+  TArr (set_nth j (key_of j (cname (cell_at h c0)), TInt z) (obs_items (obs n h) h (spine h X) 0)).
+Proof.
+  intros n h X k z bind j c0 [LX [BD [NR F]]] Z E.
+  destruct (ref_store_takes_effect h X k z bind j c0 NR BD Z E) as [S [C K]].
+  set (h' := ref_store h (VArr X) [k] z bind) in *.
+  simpl. rewrite S. f_equal.
+  assert (Same : forall c, In c (spine h X) -> cell_at h' c = cell_at h c).
+  { intros c Hc. apply K. apply BD. exact Hc. }
+  rewrite (obs_items_set_nth (obs n h') h h' (spine h X) 0 j (next h) c0 Same E).
+  rewrite C. simpl. f_equal.
+  - f_equal. destruct n; reflexivity.
+  - (* the other entries are scalars: their observation does not depend on the heap *)
+    apply obs_items_scalar_rec. intros c Hc. apply F. exact Hc.
+Qed.
+
+(* ---- usort / array_walk: every position gets a cell of the array's own, then that cell is rewritten *)
+Lemma own_all_spec : forall (f : cell -> cell), (forall c, cref (f c) = cref c) ->
+  forall n h X j, noref h X -> bounded h X ->
+  let h' := own_all h X j n f in
+  unchanged_except X h h' /\ noref h' X /\ bounded h' X.
+Proof.
+  intros f Hf. induction n as [|n IH]; intros h X j NR BD; simpl.
+  - split; [apply ue_refl|]. split; auto.
+  - destruct (nth_error (spine h X) j) as [c0|] eqn:E.
+    + destruct (own_slot_spec h X j c0 NR BD E) as [O [U [NR1 [BD1 [Sp [C [N K]]]]]]].
+      destruct (own_slot h X j) as [h1 oc]. simpl in *. subst oc.
+      set (h2 := set_cell h1 (next h) (f (cell_at h1 (next h)))).
+      assert (U2 : unchanged_except X h h2) by (apply ue_set_cell_above; [exact U | lia]).
+      assert (NR2 : noref h2 X).
+      { intros c Hc. unfold h2 in *. unfold spine, set_cell in Hc; simpl in Hc. fold (spine h1 X) in Hc.
+        unfold cell_at at 1, set_cell; simpl. destruct (Nat.eqb_spec (next h) c).
+        - rewrite Hf. rewrite C. reflexivity.
+        - apply NR1. exact Hc. }
+      assert (BD2 : bounded h2 X).
+      { intros c Hc. unfold h2 in *. unfold spine, set_cell in Hc; simpl in Hc. fold (spine h1 X) in Hc.
+        simpl. apply BD1. exact Hc. }
+      destruct (IH h2 X (S j) NR2 BD2) as [U3 [NR3 BD3]].
+      split; [eapply ue_trans; eauto | auto].
+    + unfold own_slot. rewrite E. simpl. apply IH; auto.
+Qed.
+
+Lemma insert_by_in : forall h c l x, In x (insert_by h c l) -> x = c \/ In x l.
+Proof.
+  intros h c. induction l as [|d l IH]; simpl; intros x H.
+  - destruct H as [<-|[]]; auto.
+  - destruct (int_of (cval (cell_at h c)) <=? int_of (cval (cell_at h d)))%Z.
+    + destruct H as [<-|H]; auto.
+    + destruct H as [<-|H]; auto. apply IH in H. tauto.
+Qed.
+Lemma sorted_in : forall h l x, In x (fold_right (insert_by h) [] l) -> In x l.
+Proof.
+  intros h. induction l as [|c l IH]; simpl; intros x H; auto.
+  apply insert_by_in in H. destruct H as [->|H]; auto.
+Qed.
+
+Lemma usort_frame_write : frame_write usort_arr.
+Proof.
+  intros h X NR BD. unfold usort_arr.
+  destruct (set_spine_sub_spec h X (fold_right (insert_by h) [] (spine h X)) NR BD (sorted_in h (spine h X))) as [U1 [NR1 BD1]].
+  fold (sort_spine h X) in *.
+  destruct (own_all_spec (fun c => {| cname := NNone; cval := cval c; cref := cref c |}) (fun _ => eq_refl)
+              (List.length (spine (sort_spine h X) X)) (sort_spine h X) X 0 NR1 BD1) as [U2 _].
+  eapply ue_trans; eauto.
+Qed.
+
+Lemma walk_frame_write : forall z, frame_write (fun h X => walk_arr h X z).
+Proof.
+  intros z h X NR BD. unfold walk_arr.
+  destruct (own_all_spec (fun c => {| cname := cname c; cval := VInt z; cref := cref c |}) (fun _ => eq_refl)
+              (List.length (spine h X)) h X 0 NR BD) as [U _]. exact U.
+Qed.
